@@ -530,6 +530,46 @@ def check_dispatch(ctx, cfg):
     return n
 
 
+def pull_form_map(ctx, cfg, key):
+    """A receiver's own `map` written as `Mapped::generate(|_| f(source.next().unwrap()))` with `source` the receiver's by-value iterator: generate
+    calls its closure once per index in ascending order and stores result i at index i (C08.G), each call pulls exactly one item from a source
+    that yields the elements in index order, and hands exactly that item to f - so slot i holds f(a[i]) and f is called in index order. (ok, detail)"""
+    from ..typestate import upvar_of
+    an = ctx.analysis(cfg, key)
+    pc = payload_calls(an)
+    gen = [c for c in pc if c.fn.endswith("GenericSequence::generate")]
+    iv = [c for c in pc if c.key == "GenericArray<$0,$1>::into_vec"]
+    ii = [c for c in pc if c.fn == "core::iter::IntoIterator::into_iter"]
+    if not (len(gen) == 1 and len(ii) == 1 and len(iv) <= 1 and len(pc) == 2 + len(iv)):
+        return False, "calls: %s" % [c.key or c.fn for c in pc]
+    by_self = lambda v: v == ("V", "arg", 1) or (v[0] == "P" and v[1] == ("arg", 1) and not v[2].t)
+    src_ok = (by_self(iv[0].args[0]) and ii[0].args[0] == iv[0].ret and ii[0].res.startswith("<alloc::vec::Vec<")) if iv else by_self(ii[0].args[0])
+    src_local = ii[0].term["dest"]["l"] if not ii[0].term["dest"]["p"] else None
+    g = gen[0]
+    t0 = g.targs[0] if g.targs else None
+    dst_ok = t0 is not None and ("MappedGenericSequence::Mapped" in tstr(t0) or (t0.get("k") == "adt" and t0["def"] == "alloc::boxed::Box") or is_ga(t0))
+    ret_ok = bool(an.returns) and all(r["val"] == g.ret for r in an.returns)
+    cv = g.args[0]
+    cb, ca = closure_body(ctx, cfg, cv)
+    if ca is None:
+        return False, "generate is not given a closure literal"
+    ups = list(cv[2])
+    k_src = [k for k, u in enumerate(ups) if u[0] == "P" and u[1] == ("local", src_local) and not u[2].t]
+    k_f = [k for k, u in enumerate(ups) if u[0] == "P" and u[1] == ("local", 2) and not u[2].t]
+    nx = [c for c in ca.calls if c.fn == "core::iter::Iterator::next"]
+    one_next = count_on_paths(ca, lambda c: c.fn == "core::iter::Iterator::next") == {1} and len(nx) == 1 \
+        and nx[0].args[0][0] == "P" and upvar_of(nx[0].args[0][1]) in k_src and not nx[0].args[0][2].t
+    uw = [c for c in ca.calls if c.fn in ("core::option::Option::<T>::unwrap_unchecked", "core::option::Option::<T>::unwrap", "core::option::Option::<T>::expect")]
+    item_ok = len(uw) == 1 and bool(nx) and uw[0].args[0] == nx[0].ret
+    once, args_ok, fc = check_f_call(ca, [uw[0].ret]) if uw else (False, False, None)
+    f_ok = fc is not None and fc.args[0][0] == "P" and upvar_of(fc.args[0][1]) in k_f and all(r["val"] == fc.ret for r in ca.returns)
+    others = [c.fn for c in payload_calls(ca) if c not in nx and c not in uw and c is not fc]
+    ok = bool(src_ok and dst_ok and ret_ok and one_next and item_ok and once and args_ok and f_ok and not others)
+    return ok, ("map = Mapped::generate(|_| f(source.next().unwrap())): source is the receiver's own by-value iterator (elements in index order): %s; built by generate of the mapped type "
+                "and returned: %s/%s; each closure call pulls exactly one item: %s, hands exactly it to f, once: %s/%s/%s, and returns f's result: %s; other calls in the closure: %s" % (
+                    src_ok, dst_ok, ret_ok, one_next, item_ok, once, args_ok, f_ok, others or "none"))
+
+
 def check_receivers(ctx, cfg):
     rule = "C08.R"
     db = ctx.db(cfg)
@@ -551,7 +591,16 @@ def check_receivers(ctx, cfg):
             if is_ga(st):
                 continue
             ok = not imp["items"]
-            ctx.ob(rule, "impl FunctionalSequence for %s" % db.norm(imp["self_s"]), ok, "uses the trait-default map/zip/fold (no override): %s" % ok, at=imp["at"], cfg=cfg)
+            det = "uses the trait-default map/zip/fold (no override): %s" % ok
+            if not ok:
+                # an override is judged by what it is: `map` in the pull form over generate (the other methods have no accepted override)
+                names = [x["name"] for x in imp["items"]]
+                if names == ["map"]:
+                    ok, det = pull_form_map(ctx, cfg, db.impl_key(imp) + "::map")
+                    det = "overrides map only; " + det
+                else:
+                    det = "overrides %s: no rule accepts an override of these for a non-owned receiver" % names
+            ctx.ob(rule, "impl FunctionalSequence for %s" % db.norm(imp["self_s"]), ok, det, at=imp["at"], cfg=cfg)
             n += 1
     # trait-default bodies
     b = ctx.body(cfg, "trait FunctionalSequence::map", rule)
@@ -586,9 +635,37 @@ def check_receivers(ctx, cfg):
             names = [c.key or c.fn for c in payload_calls(an)]
             iv = [c for c in an.calls if c.key == "GenericArray<$0,$1>::into_vec"]
             ok = names == ["GenericArray<$0,$1>::into_vec", "core::iter::IntoIterator::into_iter"] and len(iv) == 1 and (iv[0].args[0] == ("V", "arg", 1) or (iv[0].args[0][0] == "P" and iv[0].args[0][1] == ("arg", 1) and not iv[0].args[0][2].t))
-            ctx.ob(rule, key, ok, "Box receiver iterates into_vec(self).into_iter() (Vec order = array order, C15): %s" % names, at=b["at"], cfg=cfg)
+            det = "Box receiver iterates into_vec(self).into_iter() (Vec order = array order, C15): %s" % names
+            if not ok:
+                # the same through the boxed slice: Box<[T]>::into_iter is `self.into_vec().into_iter()` (std), into_boxed_slice keeps the order (C15)
+                ib = [c for c in an.calls if c.key == "GenericArray<$0,$1>::into_boxed_slice"]
+                ii = [c for c in an.calls if c.fn == "core::iter::IntoIterator::into_iter"]
+                ok = names == ["GenericArray<$0,$1>::into_boxed_slice", "core::iter::IntoIterator::into_iter"] and len(ib) == 1 and len(ii) == 1 \
+                    and (ib[0].args[0] == ("V", "arg", 1) or (ib[0].args[0][0] == "P" and ib[0].args[0][1] == ("arg", 1) and not ib[0].args[0][2].t)) \
+                    and ii[0].args[0] == ib[0].ret and "core::iter::IntoIterator for alloc::boxed::Box<[" in ii[0].res and all(r["val"] == ii[0].ret for r in an.returns)
+                det = "Box receiver iterates into_boxed_slice(self).into_iter() (the boxed slice's by-value iterator, in order; C15): %s" % ok
+            ctx.ob(rule, key, ok, det, at=b["at"], cfg=cfg)
             n += 1
     return n
+
+
+def collected_defaults(ctx, cfg, an, pc, N_, T_):
+    """`repeat_with(T::default).take(N)` collected through the crate's from_iter: N calls of T::default() in index order (from_iter stores the
+    k-th item in slot k and pulls exactly N items plus one probe, which take(N) answers without calling the generator). (chain ok, generator ok)"""
+    fi = [c for c in pc if c.fn in ("core::iter::FromIterator::from_iter", "core::iter::Iterator::collect")]
+    rw = [c for c in pc if c.fn == "core::iter::repeat_with"]
+    tk = [c for c in pc if c.fn == "core::iter::Iterator::take"]
+    if not (len(fi) == 1 and len(rw) == 1 and len(tk) == 1 and len(pc) == 3):
+        return None
+    gen = rw[0].args[0]
+    g_ok = gen == ("V", "fn", "core::default::Default::default") and tstr(rw[0].targs[0]) == T_ if rw[0].targs else False
+    if not g_ok:
+        cb2, ca2 = closure_body(ctx, cfg, gen)
+        if ca2 is not None:
+            dc = [c for c in ca2.calls if c.fn == "core::default::Default::default"]
+            g_ok = len(dc) == 1 and len(payload_calls(ca2)) == 1 and all(r["val"] == dc[0].ret for r in ca2.returns) and tstr(dc[0].targs[0]) == T_
+    chain = tk[0].args[0] == rw[0].ret and tk[0].args[1] == ("I", N_) and fi[0].args[0] == tk[0].ret and all(r["val"] == fi[0].ret for r in an.returns)
+    return bool(chain), bool(g_ok)
 
 
 def check_default_clone(ctx, cfg):
@@ -610,20 +687,10 @@ def check_default_clone(ctx, cfg):
             # (from_iter stores the k-th item in slot k and pulls exactly N items plus one probe, which take(N) answers without calling the generator)
             N_ = an.tenv.length(adt_args(b["impl_self"])[1])
             T_ = tstr(adt_args(b["impl_self"])[0])
-            fi = [c for c in pc if c.fn == "core::iter::FromIterator::from_iter"]
-            rw = [c for c in pc if c.fn == "core::iter::repeat_with"]
-            tk = [c for c in pc if c.fn == "core::iter::Iterator::take"]
-            if len(fi) == 1 and len(rw) == 1 and len(tk) == 1 and len(pc) == 3:
-                gen = rw[0].args[0]
-                g_ok = gen == ("V", "fn", "core::default::Default::default") and tstr(rw[0].targs[0]) == T_ if rw[0].targs else False
-                if not g_ok:
-                    cb2, ca2 = closure_body(ctx, cfg, gen)
-                    if ca2 is not None:
-                        dc = [c for c in ca2.calls if c.fn == "core::default::Default::default"]
-                        g_ok = len(dc) == 1 and len(payload_calls(ca2)) == 1 and all(r["val"] == dc[0].ret for r in ca2.returns) and tstr(dc[0].targs[0]) == T_
-                chain = tk[0].args[0] == rw[0].ret and tk[0].args[1] == ("I", N_) and fi[0].args[0] == tk[0].ret and all(r["val"] == fi[0].ret for r in an.returns)
-                ok, c_ok = bool(chain), bool(g_ok)
-                det = "Default = from_iter(repeat_with(T::default).take(N)): chain %s, generator is T::default: %s" % (chain, g_ok)
+            cd = collected_defaults(ctx, cfg, an, pc, N_, T_)
+            if cd is not None:
+                ok, c_ok = cd
+                det = "Default = from_iter(repeat_with(T::default).take(N)): chain %s, generator is T::default: %s" % cd
         ctx.ob(rule, key, ok and c_ok, det, at=b["at"], cfg=cfg)
     key = "<GenericArray<$0,$1> as core::clone::Clone>::clone"
     b = ctx.body(cfg, key, rule)
@@ -669,7 +736,14 @@ def check_default_clone(ctx, cfg):
             ok = len(pc) == 1 and pc[0].fn.endswith("GenericSequence::generate") and pc[0].targs[0].get("k") == "adt" and pc[0].targs[0]["def"] == "alloc::boxed::Box"
             cb, ca = closure_body(ctx, cfg, pc[0].args[0]) if ok else (None, None)
             c_ok = ca is not None and len([c for c in ca.calls if c.fn == "core::default::Default::default"]) == 1
-            ctx.ob(rule, key, ok and c_ok, "default_boxed = Box::<GA>::generate(|_| T::default()): %s/%s" % (ok, c_ok), at=b["at"], cfg=cfg)
+            det = "default_boxed = Box::<GA>::generate(|_| T::default()): %s/%s" % (ok, c_ok)
+            if not (ok and c_ok):
+                gens = [g["n"] for g in b["generics"] if g["kind"] == "type"]
+                cd = collected_defaults(ctx, cfg, an, pc, an.tenv.length({"k": "param", "n": gens[1]}), gens[0]) if len(gens) >= 2 else None
+                if cd is not None:
+                    ok, c_ok = cd
+                    det = "default_boxed = repeat_with(T::default).take(N) collected into the box (boxed from_iter: C07 / C15): chain %s, generator is T::default: %s" % cd
+            ctx.ob(rule, key, ok and c_ok, det, at=b["at"], cfg=cfg)
 
 
 def check(ctx):
